@@ -1653,6 +1653,15 @@ def run_c08(ctx: kernel.Ctx, case: Dict[str, Any]) -> None:
 
     ag = fresh()
     twin = fresh()  # done-masking twin: identical history, but next observations of done rows are replaced by noise
+    if algo == "RainbowDQN" and kernel.derive(case["cfg_seed"], "sharp") % 2:
+        # stand-in for a trained network: larger weights give peaked return distributions, so that the network's clamp of small probabilities
+        # is active (a freshly initialised net is close to uniform over the atoms and never reaches it within a short streak)
+        with torch.no_grad():
+            for a_ in (ag, twin):
+                for net in (a_.actor, a_.actor_target):
+                    for p_ in net.parameters():
+                        p_.mul_(4.0)
+        ctx.probe("rainbow_sharpened_distributions")
     model = TargetModel(w, ag)
     n_learn = 0
     for oi, op in enumerate(case["ops"]):
